@@ -1363,6 +1363,16 @@ impl<F: VfsFile> BPlusTree<F> {
 	pub fn with_file(file: F, compare: Arc<dyn Comparator>) -> Result<Self> {
 		let storage_size = file.size()?;
 
+		// A new tree is initialised by writing the header page and the root page
+		// and syncing them; nothing is stored before that. A file shorter than
+		// those two pages is an initialisation that a crash interrupted (it holds
+		// no data yet): start over instead of failing on the missing root.
+		let storage_size = if storage_size < 2 * PAGE_SIZE as u64 {
+			0
+		} else {
+			storage_size
+		};
+
 		let (header, cache) = if storage_size == 0 {
 			// Initialize a new B+Tree
 			let root_offset = PAGE_SIZE as u64;
